@@ -114,7 +114,27 @@ def check_text(text, full):
                             ("anchored-value", "k: &a%s%s\nj: *a\n" % (sp, text), lambda r: [r["k"], r["j"]])]
                     if plain_ok(text, True) or text == "":
                         ctxs.append(("flow", "[x, &a%s%s , *a]\n" % (sp, text), lambda r: [r[1], r[2]]))
+                    from vlib.runner import h64
+                    if h64(text) % 8 == 0 and "\n" not in text and text.strip() == text and text:
+                        # ... as the root of the first document of a STREAM, the next document's marker standing right at the
+                        # reader's refill boundary (one in eight texts): the marker is not part of the scalar
+                        import io as _io
+                        for off in (2, 1):
+                            padn = 8192 - off - len(text) - 1
+                            sdoc = "#" + "p" * (padn - 2) + "\n" + text + "\n--- next\n"
+                            ctxs.append(("stream-root-before-marker-at-refill-boundary", _io.StringIO(sdoc), None))
                     for cname, doc, pick in ctxs:
+                        if pick is None:
+                            evals += 1
+                            try:
+                                docs_ = list(yaml.load_all(doc, Loader=L))
+                            except yaml.YAMLError as e:
+                                failures.append(Failure("load:%s:%s:rejected-in-context:%s" % (lname, kind, cname), "text=%r %s" % (text, exc_msg(e))))
+                                continue
+                            if len(docs_) != 2 or docs_[1] != "next" or not value_equal(docs_[0], exp, sexa):
+                                failures.append(Failure("load:%s:%s:wrong-value-in-context:%s" % (lname, kind, cname),
+                                                        "text=%r gave %.120r expected [%r, 'next']" % (text, docs_, exp)))
+                            continue
                         evals += 1
                         try:
                             vals = pick(yaml.load(doc, Loader=L))
@@ -201,6 +221,26 @@ def check_dump_value(v, styles=(None,)):
                 if not scalar_equal(v, back):
                     failures.append(Failure("dump:%s>%s:%s:style=%s:changed" % (dname, lname, type(v).__name__, style),
                                             "value=%r text=%r reloaded=%r" % (v, text, back)))
+        # the value as the ROOT of a document, alone and followed by further documents, with and without directives and explicit
+        # markers: what follows the written scalar (end of stream, '...', a directive, '---') must not become part of it
+        for opts in ({}, {"version": (1, 1)}, {"tags": {"!e!": "tag:example.com,2000:"}}, {"explicit_end": True}, {"explicit_start": True, "version": (1, 2)}):
+            evals += 1
+            try:
+                text = yaml.dump_all([v, v, [v]], Dumper=D, **opts)
+            except Exception as e:
+                failures.append(Failure("dump_all:%s:raised:%s" % (dname, exc_key(e)), "value=%r %s" % (v, exc_msg(e))))
+                continue
+            for lname, L in loaders:
+                evals += 1
+                try:
+                    back = list(yaml.load_all(text, Loader=L))
+                except Exception as e:
+                    failures.append(Failure("dump_all:%s>%s:%s:reload-raised:%s" % (dname, lname, type(v).__name__, exc_key(e)),
+                                            "value=%r options=%r text=%r %s" % (v, opts, text, exc_msg(e))))
+                    continue
+                if len(back) != 3 or not scalar_equal(v, back[0]) or not scalar_equal(v, back[1]) or not isinstance(back[2], list) or not scalar_equal(v, back[2][0]):
+                    failures.append(Failure("dump_all:%s>%s:%s:root-value-changed" % (dname, lname, type(v).__name__),
+                                            "value=%r options=%r text=%r reloaded=%r" % (v, opts, text, back)))
     return failures, evals
 
 
